@@ -23,7 +23,7 @@ class WbDecWorld(World):
                        "requesting initiator (seeded byzantine agent)")
     fault_kinds = ("byzantine_request", "garbage_dat_r_unselected", "multi_response",
                    "err_response", "rty_response", "stall_response", "nobody_selected_with_cyc",
-                   "stb_without_cyc")
+                   "stb_without_cyc", "rejected_re_add")
     assumptions = (
         "Amaranth's Python RTL simulator executes the elaborated netlist faithfully",
         "subordinates respond only while they see cyc and stb (as the property assumes)",
@@ -63,8 +63,10 @@ class WbDecWorld(World):
                 addr = (rng.below(1 << mmaw) >> smaw) << smaw
             subs.append({"sparse": sparse, "dw": sdw, "g": sg, "aw": saw, "feats": sorted(sf),
                          "name": None if rng.chance(0.5) else f"w{i}", "addr": addr,
-                         "align_to": rng.range(0, 4) if rng.chance(0.15) else None})
-        return {"aw": aw, "dw": dw, "g": g, "feats": sorted(feats), "al": al, "subs": subs}
+                         "align_to": rng.range(0, 4) if rng.chance(0.15) else None,
+                         "readd": int(rng.chance(0.08))})
+        return {"aw": aw, "dw": dw, "g": g, "feats": sorted(feats), "al": al, "subs": subs,
+                "feats_as": rng.choice(["str", "str", "enum"])}
 
     def gen_ops(self, rng, config, prop):
         ops = []
@@ -122,13 +124,15 @@ class WbDecWorld(World):
         aw, dw, g = config["aw"], config["dw"], config["g"]
         gb = log2(dw // g)
         feats = set(config["feats"])
+        spell = (lambda fs: {wishbone.Feature(f) for f in fs}) if config.get("feats_as") == "enum" \
+            else (lambda fs: set(fs))
         dut = hw.construct(wishbone.Decoder, addr_width=aw, data_width=dw, granularity=g,
-                           features=feats, alignment=config["al"])
+                           features=spell(feats), alignment=config["al"])
         subs = []
         for i, sc in enumerate(config["subs"]):
             try:
                 sb = wishbone.Interface(addr_width=sc["aw"], data_width=sc["dw"],
-                                        granularity=sc["g"], features=set(sc["feats"]),
+                                        granularity=sc["g"], features=spell(sc["feats"]),
                                         path=(f"s{i}",))
                 smaw = max(1, sc["aw"] + log2(sc["dw"] // sc["g"]))
                 sb.memory_map = MemoryMap(addr_width=smaw, data_width=sc["g"])
@@ -145,6 +149,12 @@ class WbDecWorld(World):
                 raise Refused("dense finer-granularity window is outside C07's domain")
             subs.append({"bus": sb, "start": s, "own_end": s + (1 << smaw), "rep_end": e,
                          "sparse": sc["sparse"], "feats": set(sc["feats"]), "idx": i})
+            if sc.get("readd"):
+                try:
+                    dut.add(sb, name=f"again{i}", sparse=sc["sparse"])
+                    raise Violation("C07", "duplicate-subordinate-accepted", 0, "")
+                except ValueError:
+                    stats.fault("rejected_re_add")
         sim = hw.build_sim(hw.make_top(dut))
         b = dut.bus
         amask = (1 << aw) - 1
